@@ -181,14 +181,25 @@ def search(ctx):
 
 C01NAMES = ["agree_unsatisfiable_of_shared_name", "agree_unsatisfiable_of_shared_function_name", "agree_of_injective",
             "assignLocals_class", "assignLocals_collision_free", "local_pass_collision_free",
-            "locals_with_distinct_sources_stay_distinct"]
+            "locals_with_distinct_sources_stay_distinct",
+            # the local pass protects exactly the names the usage analysis reports (seeded mutant C01-5)
+            "assignLocals_keeps_unreserved", "unreserved_used_name_can_be_captured"]
+
+# property C02's obligations about ir/src/usage_analysis.rs (gather_usage_* / GlobalUsageAnalysis): NameMap::build reserves for
+# local variables only the names of the functions / globals that this analysis reports as used by some body
+C02USAGE = ["tables_as_modelled", "all_positions_descended", "recurse_no_panic", "recurse_terminates", "close_is_reachability",
+            "calculateLocal_wf", "closeProgram_ok", "mentions_calculateLocal", "default_arguments_analysed",
+            "global_initialisers_analysed"]
 
 
 SPEC = {
     "id": "C01",
     # Reserved: C15's translator (reserved words + the source fingerprints of NameMap::build, incl. the local-variable pass)
-    "gens": ["HlslGenTables", "HlslIntrinsicTables", "HlslVecTables", "FmtTables", "ParseTables", "Reserved"],
-    "lean_modules": ["RsslVerif.Thm.C01", "RsslVerif.Thm.C01Names", "RsslVerif.Thm.C01Vec", "RsslVerif.Thm.C09", "RsslVerif.Thm.C15"],
+    # UsageTables: C02's translator (match-arm / field inventory of gather_usage_*: which fields of every statement / expression /
+    # initialiser variant the usage analysis descends into)
+    "gens": ["HlslGenTables", "HlslIntrinsicTables", "HlslVecTables", "FmtTables", "ParseTables", "Reserved", "UsageTables"],
+    "lean_modules": ["RsslVerif.Thm.C01", "RsslVerif.Thm.C01Names", "RsslVerif.Thm.C01Vec", "RsslVerif.Thm.C09", "RsslVerif.Thm.C15",
+                     "RsslVerif.Thm.C02"],
     "theorems": [T + n for n in [
         "op_table_is_identity", "op_table_injective", "intrinsic_table_is_identity", "exporter_shape_as_modelled",
         "literal_value_preserved", "literal_total", "literal_never_panics", "literal_int32_min",
@@ -215,7 +226,12 @@ SPEC = {
             "locals_apart_from_used", "scope_loop_terminates", "emitted_never_reserved", "emitted_injective_file_scope",
             "flat_used_name_unique", "uses_resolve_to_same_entity"]] + [
         # Thm/C01Names.lean: the local pass never gives two locals one name unless the source did, and what `Agree` needs
-        "RsslVerif.Thm.C01Names." + n for n in C01NAMES],
+        "RsslVerif.Thm.C01Names." + n for n in C01NAMES] + [
+        # which names are reserved for locals rests on the usage analysis: a body's mention that gather_usage_* does not visit
+        # leaves the symbol's name free for a local, which then captures the reference (Thm.C01Names.
+        # unreserved_used_name_can_be_captured; seeded mutant C01-5: the index of ArraySubscript no longer descended into makes
+        # all_positions_descended false).  C02's obligations about gather_usage_* / recurse are C01 obligations too
+        "RsslVerif.Thm.C02." + n for n in C02USAGE],
     "harness": "c01",
     "nontrivial": nontrivial,
     "finding_key": finding_key,
